@@ -172,6 +172,26 @@ def check(ck):
                 if t[0] == "call" and t[1][0] == "attr" and t[1][2] == "join":
                     okk = True
     ck.require(okk, "C17.3", "%s: close() decodes the joined data" % q.fn(fc), "from_bytes(join(self.data))", "the client does not decode the joined response once", q.loc(fc, fc.node))
+    # the decoding is exact: no error-handling scheme that alters the text ("replace", "ignore", ...)
+    for fi_ in (fc, fp):
+        for c_ in [x for x in ast.walk(fi_.node) if isinstance(x, ast.Call) and call_name(x) in DECODERS]:
+            lossy = [a_ for a_ in list(c_.args[1:]) + [k_.value for k_ in c_.keywords if k_.arg in ("errors",)]
+                     if isinstance(a_, ast.Constant) and isinstance(a_.value, str) and a_.value.lower() in ("replace", "ignore", "backslashreplace", "surrogateescape", "xmlcharrefreplace")]
+            ck.require(not lossy, "C17.3", "%s: `%s` decodes strictly" % (q.fn(fi_), dump(c_)[:40]), "no lossy error scheme",
+                       "`%s` decodes with the error scheme %r: bytes that are not valid UTF-8 are altered instead of reported, and the "
+                       "fall-back that hands the raw bytes to the JSON parser (UTF-16 / UTF-32 bodies) is never reached" % (dump(c_)[:50], lossy[0].value if lossy else ""),
+                       q.loc(fi_, c_))
+    # every chunk handed to the parser reaches the target's buffer: feed() has no early exit and appends unconditionally
+    for (cls_, what_) in (("JSONParser", "target.feed"), ("JSONTarget", "data.append")):
+        ff_ = prog.func("jsonrpc", cls_ + ".feed")
+        gf_ = cfg_of(ff_)
+        sinks = set(n.id for n in gf_.live_nodes() for c in node_calls(n) if dump(c.func).endswith(what_))
+        if not sinks:
+            raise AnalysisError("anchor vanished: %s in %s.feed" % (what_, cls_))
+        skip_ = reachable_avoiding(gf_, gf_.entry.id, sinks, lambda l: l != "exc")
+        ck.require(gf_.return_exit.id not in skip_, "C17.3", "%s: every chunk is stored" % q.fn(ff_), "no path around `%s`" % what_,
+                   "%s.feed can return without storing the chunk it was given (a test on the chunk's content): the reassembled text "
+                   "depends on where the read boundaries fall" % cls_, q.loc(ff_, ff_.node))
 
     # ---- C17.4 / C17.5 request target and schemes -------------------------------------------------------------
     finit = prog.func("jsonrpc", "ServerProxy.__init__")
